@@ -6,8 +6,31 @@
 
 //@ raw
 use std::collections::VecDeque;
-type HashSet<T> = std::collections::HashSet<T, std::collections::hash_map::RandomState>;
-broadcast use vstd::std_specs::hash::group_hash_axioms;
+// R3: the file's `use rustc_hash::FxHashSet as HashSet;` is resolved to this type, which carries the
+// ASSUMED contract of a hash set (mathematical set view; by-value iteration yields every element
+// exactly once, in an unspecified order).
+#[verifier::external_body]
+#[verifier::reject_recursive_types(T)]
+pub struct HashSet<T> { v: Vec<T> }
+impl<T> HashSet<T> {
+    pub uninterp spec fn view(&self) -> Set<T>;
+    #[verifier::external_body]
+    pub fn default() -> (r: Self)
+        ensures r.view() == Set::<T>::empty(),
+    { unimplemented!() }
+    #[verifier::external_body]
+    pub fn insert(&mut self, x: T) -> (r: bool)
+        ensures final(self).view() == old(self).view().insert(x),
+    { unimplemented!() }
+    #[verifier::external_body]
+    pub fn remove(&mut self, x: &T) -> (r: bool)
+        ensures final(self).view() == old(self).view().remove(*x),
+    { unimplemented!() }
+    #[verifier::external_body]
+    pub fn into_iter(self) -> (r: Vec<T>)
+        ensures r@.no_duplicates(), forall|x: T| #[trigger] r@.contains(x) == self.view().contains(x),
+    { unimplemented!() }
+}
 
 //@ item parser/src/keys/mod.rs enum OsCode
 //@@ keep-vis
@@ -150,15 +173,100 @@ proof fn lemma_all_released(items: Seq<DynamicMacroItem>, rel: Seq<DynamicMacroI
 
 //@ item src/kanata/dynamic_macro.rs fn add_release_for_all_unreleased_presses in `DynamicMacroRecordState`
 //@@ wrap impl DynamicMacroRecordState
-//@@ attr #[verifier::external_body]
+//@@ sub R10 1 `for item in self.macro_items.iter()` => `for item in it: self.macro_items.iter()`
+//@@ sub R10 1 `for osc in pressed_oscs.into_iter()` => `for osc in it2: pressed_oscs.into_iter()`
 //@@ spec
-    // ASSUMED, unchecked (iterates an FxHashSet by value): appends exactly one zero-delay
-    // release per key still down, in some order; touches nothing else.
+    // appends exactly one zero-delay release per key still down, in some order; touches nothing else
     ensures
         closed_by(old(self).macro_items@, final(self).macro_items@),
         final(self).starting_macro_id == old(self).starting_macro_id,
         final(self).waiting_event == old(self).waiting_event,
         final(self).current_delay == old(self).current_delay,
+//@@ before 1 `for item in it: self.macro_items.iter()`
+        let ghost items0 = self.macro_items@;
+        proof {
+            assert(items0.subrange(0, 0) =~= Seq::<DynamicMacroItem>::empty());
+        }
+//@@ loop 1
+            invariant
+                self.macro_items@ == items0,
+                it.seq().len() == items0.len(),
+                forall|i: int| 0 <= i < items0.len() ==> *(#[trigger] it.seq()[i]) == items0[i],
+                self.starting_macro_id == old(self).starting_macro_id,
+                self.waiting_event == old(self).waiting_event,
+                self.current_delay == old(self).current_delay,
+                0 <= it.index@ <= items0.len(),
+                forall|k: OsCode| #[trigger] pressed_oscs@.contains(k) == down_after(items0.subrange(0, it.index@ as int), k),
+//@@ after 1 `DynamicMacroItem::EndMacro(_) => {}\n            };`
+            proof {
+                let i = it.index@ as int;
+                let pre = items0.subrange(0, i);
+                let nxt = items0.subrange(0, i + 1);
+                assert(nxt.drop_last() =~= pre);
+                assert(nxt.last() == items0[i]);
+            }
+//@@ before 1 `for osc in it2: pressed_oscs.into_iter()`
+        proof {
+            assert(items0.subrange(0, items0.len() as int) =~= items0);
+        }
+        let ghost down = pressed_oscs@;
+        let ghost mut done: Seq<OsCode> = Seq::empty();
+//@@ loop 2
+            invariant
+                self.starting_macro_id == old(self).starting_macro_id,
+                self.waiting_event == old(self).waiting_event,
+                self.current_delay == old(self).current_delay,
+                it2.seq().no_duplicates(),
+                forall|x: OsCode| #[trigger] it2.seq().contains(x) == down.contains(x),
+                forall|k: OsCode| #[trigger] down.contains(k) == down_after(items0, k),
+                0 <= it2.index@ <= it2.seq().len(),
+                done =~= it2.seq().subrange(0, it2.index@ as int),
+                it2.seq().subrange(0, it2.seq().len() as int) =~= it2.seq(),
+                self.macro_items@.len() == items0.len() + done.len(),
+                self.macro_items@.subrange(0, items0.len() as int) =~= items0,
+                forall|j: int| 0 <= j < done.len() ==> #[trigger] self.macro_items@[items0.len() + j] == DynamicMacroItem::Release((done[j], 0u16)),
+//@@ after 1 `self.macro_items.push(DynamicMacroItem::Release((osc, 0)));`
+            proof {
+                done = done.push(osc);
+            }
+            proof {
+                assert(it2.seq().subrange(0, it2.index@ + 1) =~= it2.seq().subrange(0, it2.index@ as int).push(it2.seq()[it2.index@ as int]));
+                assert(it2.seq().subrange(0, it2.seq().len() as int) =~= it2.seq());
+            }
+//@@ after 1 `self.macro_items.push(DynamicMacroItem::Release((osc, 0))); }`
+        proof {
+            assert forall|k: OsCode| #[trigger] done.contains(k) == down_after(items0, k) by {
+                assert(down.contains(k) == down_after(items0, k));
+            }
+            lemma_closed(items0, self.macro_items@, done);
+        }
+
+//@ raw
+proof fn lemma_closed(items0: Seq<DynamicMacroItem>, fin: Seq<DynamicMacroItem>, ks: Seq<OsCode>)
+    requires
+        fin.len() == items0.len() + ks.len(),
+        fin.subrange(0, items0.len() as int) =~= items0,
+        forall|j: int| 0 <= j < ks.len() ==> #[trigger] fin[items0.len() + j] == DynamicMacroItem::Release((ks[j], 0u16)),
+        ks.no_duplicates(),
+        forall|k: OsCode| #[trigger] ks.contains(k) == down_after(items0, k),
+    ensures closed_by(items0, fin),
+{
+    let n0 = items0.len() as int;
+    let rel = fin.subrange(n0, fin.len() as int);
+    assert forall|i: int| 0 <= i < rel.len() implies (#[trigger] rel[i] matches DynamicMacroItem::Release((k, d)) && d == 0 && down_after(items0, k)) by {
+        assert(rel[i] == fin[n0 + i]);
+        assert(ks.contains(ks[i]));
+    }
+    assert forall|k: OsCode| #[trigger] down_after(items0, k) implies rel.contains(DynamicMacroItem::Release((k, 0u16))) by {
+        assert(ks.contains(k));
+        let i = choose|i: int| 0 <= i < ks.len() && ks[i] == k;
+        assert(rel[i] == fin[n0 + i]);
+    }
+    assert forall|i: int, j: int| 0 <= i < j < rel.len() implies rel[i] != rel[j] by {
+        assert(rel[i] == fin[n0 + i] && rel[j] == fin[n0 + j]);
+        assert(ks[i] != ks[j]);
+    }
+}
 
 //@ item src/kanata/dynamic_macro.rs fn add_event in `DynamicMacroRecordState`
 //@@ wrap impl DynamicMacroRecordState
